@@ -167,6 +167,20 @@ pub use crate::api::*;
 #[macro_use]
 mod util;
 
+#[cfg(feature = "verif-sim")]
+#[doc(hidden)]
+pub mod simhook;
+#[cfg(feature = "verif-sim")]
+macro_rules! sim_step {
+    ($site:ident, $aux:expr) => {
+        $crate::simhook::step($crate::simhook::site::$site, $aux)
+    };
+}
+#[cfg(not(feature = "verif-sim"))]
+macro_rules! sim_step {
+    ($site:ident, $aux:expr) => {};
+}
+
 mod api;
 mod bytesearch;
 mod charclasses;
